@@ -8,11 +8,11 @@ package main
 
 import (
 	"bufio"
-	"io"
-	"log"
 	"context"
 	"encoding/json"
 	"fmt"
+	"io"
+	"log"
 	"math/rand"
 	"os"
 	"path/filepath"
@@ -314,21 +314,37 @@ func one(id int, dir string) O {
 	}
 	// the single-loop crew's loader: inline, file:// JSON, file:// YAML
 	var spec *core.Spec
-	e := trap(func() error { var err error; _, spec, err = sio.ResolveSpecSource(ctx, &crew.SpecSource{Inline: mk()}); return err })
+	e := trap(func() error {
+		var err error
+		_, spec, err = sio.ResolveSpecSource(ctx, &crew.SpecSource{Inline: mk()})
+		return err
+	})
 	add("sio-inline", spec, nil, e)
 	jf := filepath.Join(dir, "s.json")
 	os.WriteFile(jf, js, 0644)
-	e = trap(func() error { var err error; _, spec, err = sio.ResolveSpecSource(ctx, &crew.SpecSource{URL: "file://" + jf}); return err })
+	e = trap(func() error {
+		var err error
+		_, spec, err = sio.ResolveSpecSource(ctx, &crew.SpecSource{URL: "file://" + jf})
+		return err
+	})
 	add("sio-file-json", spec, nil, e)
 	// the same JSON document after a byte order mark, a newline and some spaces: still JSON
 	jf2 := filepath.Join(dir, "s2.json")
 	os.WriteFile(jf2, append([]byte("\xef\xbb\xbf\n  "), js...), 0644)
-	e = trap(func() error { var err error; _, spec, err = sio.ResolveSpecSource(ctx, &crew.SpecSource{URL: "file://" + jf2}); return err })
+	e = trap(func() error {
+		var err error
+		_, spec, err = sio.ResolveSpecSource(ctx, &crew.SpecSource{URL: "file://" + jf2})
+		return err
+	})
 	add("sio-file-json-after-whitespace", spec, nil, e)
 	if yerr == nil {
 		yf := filepath.Join(dir, "s.yaml")
 		os.WriteFile(yf, ys, 0644)
-		e = trap(func() error { var err error; _, spec, err = sio.ResolveSpecSource(ctx, &crew.SpecSource{URL: "file://" + yf}); return err })
+		e = trap(func() error {
+			var err error
+			_, spec, err = sio.ResolveSpecSource(ctx, &crew.SpecSource{URL: "file://" + yf})
+			return err
+		})
 		add("sio-file-yaml", spec, nil, e)
 	}
 	return O{"id": id, "kind": "load", "unknown": unknown, "badType": badType, "reps": reps, "raw": enc.Canon(O{"spec": a, "unknown": unknown, "emptyBranching": emptyBranching, "seqs": seqs})}
